@@ -915,7 +915,8 @@ func c16Corpus() []*c16Scenario {
 		Hook:   c16HookProgram{Kind: "const", Labels: map[string]*string{"x": c16Str("y")}},
 		Rounds: []c16RoundSpec{{}}})
 	// 4. cluster-scoped target without status subresource and without a status: a label-only change with a
-	//    null status in the response stores an explicit "status": null; the next sync then fails in NestedMap
+	//    null status in the response must leave the status key absent (regression: it used to store an
+	//    explicit "status": null, after which every sync failed in NestedMap); the second round is a clean no-op
 	out = append(out, &c16Scenario{Family: "corpus", Features: []string{"corpus-no-status-subresource-null"},
 		Ctl:    c16CtlSpec{Name: "corpus4", Rules: []c16RuleSpec{cwRule}, Attachments: []c16AttSpec{c16AttClusterGadget}},
 		Target: cw(c16J{"app": "a"}, nil),
